@@ -33,6 +33,7 @@ import (
 	"github.com/ghodss/yaml"
 	"github.com/wokdav/gopki/generator/cert"
 
+	"verifharness/internal/ecv"
 	"verifharness/internal/project"
 	"verifharness/internal/simfs"
 	"verifharness/internal/util"
@@ -49,6 +50,7 @@ type genFile struct {
 // a certificate request) of the given type, made with the standard library, not with gopki.
 type genMake struct {
 	Kind    string `json:"kind"`    // "key" | "cert+key" | "csr"
+	Variant string `json:"variant"` // EC PKCS#8 layout: "" (curve in the AlgorithmIdentifier only) | "embedded-curve" (also inside ECPrivateKey) | "no-algid-params" (only inside)
 	Key     string `json:"key"`     // "P-224" | "P-256" | "P-384" | "P-521" | "RSA-1024" | "RSA-2048"
 	CN      string `json:"cn"`      // subject common name of the certificate / request
 	StrType string `json:"strType"` // "" (library default) | "utf8" | "ia5" | "t61" | "printable": string type of the subject attributes
@@ -68,6 +70,36 @@ type genCase struct {
 	// VerifyKeyOf: alias -> alias of the entity whose certificate's public key is used for sigOkWith
 	// (default: the issuer named by the config, the entity itself for a root)
 	VerifyKeyOf map[string]string `json:"verifyKeyOf"`
+	// Steps: further user actions + runs after the first run; every step is reported in `hist`
+	Steps []genStep `json:"steps"`
+}
+
+type genStep struct {
+	Put    []genFile `json:"put"`
+	Remove []string  `json:"remove"`
+	Flags  []string  `json:"flags"`
+}
+
+type genHistEnt struct {
+	Alias      string `json:"alias"`
+	Exists     bool   `json:"exists"`
+	HasCert    bool   `json:"hasCert"`
+	KeyId      string `json:"keyId"`
+	CertKeyId  string `json:"certKeyId"`
+	HasPrivate bool   `json:"hasPrivate"`
+	HasRequest bool   `json:"hasRequest"`
+	SigOk      bool   `json:"sigOk"`
+	KeyKind    string `json:"keyKind"`
+	HashLine   string `json:"hashLine"`
+	CertSha    string `json:"certSha"`
+}
+
+type genHist struct {
+	Step   int          `json:"step"`
+	Result string       `json:"result"`
+	Err    string       `json:"err"`
+	Plan   []string     `json:"plan"`
+	Ents   []genHistEnt `json:"ents"`
 }
 
 type genFacts struct {
@@ -110,6 +142,7 @@ type genOut struct {
 	T0     []int           `json:"t0"` // UTC [y,mo,d,hh,mi,ss] just before the (last) run
 	T1     []int           `json:"t1"` // ... just after
 	Ents   []genEnt        `json:"ents"`
+	Hist   []genHist       `json:"hist"`
 	Tag    json.RawMessage `json:"tag"`
 }
 
@@ -186,6 +219,10 @@ func genOne(cs *genCase) *genOut {
 	if runs < 1 {
 		runs = 1
 	}
+	var initialFS *simfs.FS
+	if len(cs.Steps) > 0 {
+		initialFS = fsys.Clone()
+	}
 	var r runResult
 	for i := 0; i < runs; i++ {
 		fsys.ResetLog()
@@ -202,6 +239,86 @@ func genOne(cs *genCase) *genOut {
 	}
 	if out.Plan == nil {
 		out.Plan = []string{}
+	}
+	out.Hist = []genHist{}
+	snapshot := func(step int, r runResult) {
+		h := genHist{Step: step, Result: r.Result, Err: r.Err, Plan: r.Plan, Ents: []genHistEnt{}}
+		if h.Plan == nil {
+			h.Plan = []string{}
+		}
+		if len(h.Err) > 300 {
+			h.Err = h.Err[:300]
+		}
+		cs2 := map[string]*project.Cert{}
+		ps2 := map[string]project.PemFile{}
+		for _, ci := range cfgs {
+			if f, ok := fsys.Files[stem(ci.path)+".pem"]; ok {
+				p := project.ParsePem(f.Data)
+				ps2[ci.alias] = p
+				if p.Cert != nil {
+					if c, err := project.ParseCert(p.Cert); err == nil {
+						cs2[ci.alias] = c
+					}
+				}
+			}
+		}
+		for _, ci := range cfgs {
+			he := genHistEnt{Alias: ci.alias}
+			if p, ok := ps2[ci.alias]; ok {
+				he.Exists = true
+				var fx genFacts
+				if c := cs2[ci.alias]; c != nil {
+					he.HasCert = true
+					fx = certFacts(p, c, cs2, ci.issuer, ci.alias)
+					he.CertSha = project.SHA1Hex(c.Raw)
+				} else {
+					fx = certFacts(p, nil, cs2, ci.issuer, ci.alias)
+					if p.Key != nil {
+						if k, err := project.ParsePKCS8(p.Key); err == nil {
+							fx.KeyId = k.Pub.ID()
+						}
+					} else if p.Csr != nil {
+						if rq, err := project.ParseCsr(p.Csr); err == nil {
+							if rk, err := rq.PubKey(); err == nil {
+								fx.KeyId = rk.ID()
+							}
+						}
+					}
+				}
+				he.KeyId, he.CertKeyId, he.HasPrivate, he.HasRequest, he.SigOk, he.KeyKind, he.HashLine = fx.KeyId, fx.CertKeyId, p.Key != nil, p.Csr != nil, fx.SigOK, fx.KeyKind, fx.HashLine
+			}
+			h.Ents = append(h.Ents, he)
+		}
+		out.Hist = append(out.Hist, h)
+	}
+	if len(cs.Steps) > 0 {
+		cur := fsys
+		fsys = initialFS
+		snapshot(-1, runResult{Result: "initial"})
+		fsys = cur
+		snapshot(0, r)
+		for si, st := range cs.Steps {
+			for _, f := range st.Put {
+				data := []byte(f.Text)
+				if f.B64 != "" {
+					data, _ = base64.StdEncoding.DecodeString(f.B64)
+				}
+				if f.Make != nil {
+					data = makeFixture(f.Make, madeKeys)
+				}
+				fsys.Put(f.Path, data)
+			}
+			for _, p := range st.Remove {
+				fsys.Remove(p)
+			}
+			fl := st.Flags
+			if fl == nil {
+				fl = []string{"m", "c"}
+			}
+			fsys.ResetLog()
+			r = signRun(fsys, flagsToStrat(fl), func(a string) string { return a })
+			snapshot(si+1, r)
+		}
 	}
 	// projection of every artifact
 	certs := map[string]*project.Cert{}
@@ -472,6 +589,12 @@ func cmdGen(args []string) int {
 // ---------------------------------------------------------------------------------- fixtures
 
 func makeKey(name string) any {
+	if c := ecv.ByName(name); c != nil && strings.HasPrefix(name, "brainpool") {
+		d, _ := crand.Int(crand.Reader, new(big.Int).Sub(c.N, big.NewInt(1)))
+		d.Add(d, big.NewInt(1))
+		x, y := c.ScalarBase(d)
+		return &rawECKey{c, d, x, y}
+	}
 	switch name {
 	case "P-224":
 		k, _ := ecdsa.GenerateKey(elliptic.P224(), crand.Reader)
@@ -515,6 +638,74 @@ func rawName(cn, strType string) []byte {
 	return b
 }
 
+// a brainpool key made with package ecv (the standard library does not know these curves)
+type rawECKey struct {
+	curve *ecv.Curve
+	d     *big.Int
+	x, y  *big.Int
+}
+
+func marshalPKCS8Variant(key any, variant string) []byte {
+	type ecPriv struct {
+		Version int
+		D       []byte
+		Curve   asn1.ObjectIdentifier `asn1:"optional,explicit,tag:0"`
+		Pub     asn1.BitString        `asn1:"optional,explicit,tag:1"`
+	}
+	type algid struct {
+		Alg    asn1.ObjectIdentifier
+		Params asn1.RawValue `asn1:"optional"`
+	}
+	type p8 struct {
+		Version int
+		Algo    algid
+		Key     []byte
+	}
+	var curveOID asn1.ObjectIdentifier
+	var d, x, y *big.Int
+	var blen int
+	switch k := key.(type) {
+	case *rsa.PrivateKey:
+		b, _ := x509.MarshalPKCS8PrivateKey(k)
+		return b
+	case *ecdsa.PrivateKey:
+		if variant == "" {
+			b, _ := x509.MarshalPKCS8PrivateKey(k)
+			return b
+		}
+		c := ecv.ByName(k.Curve.Params().Name)
+		curveOID, _ = parseOID(c.OID)
+		d, x, y, blen = k.D, k.X, k.Y, c.ByteLen
+	case *rawECKey:
+		curveOID, _ = parseOID(k.curve.OID)
+		d, x, y, blen = k.d, k.x, k.y, k.curve.ByteLen
+	}
+	pt := append([]byte{4}, append(x.FillBytes(make([]byte, blen)), y.FillBytes(make([]byte, blen))...)...)
+	nlen := blen
+	inner := ecPriv{Version: 1, D: d.FillBytes(make([]byte, nlen)), Pub: asn1.BitString{Bytes: pt, BitLength: len(pt) * 8}}
+	if variant == "embedded-curve" || variant == "no-algid-params" {
+		inner.Curve = curveOID
+	}
+	ib, _ := asn1.Marshal(inner)
+	out := p8{Version: 0, Algo: algid{Alg: asn1.ObjectIdentifier{1, 2, 840, 10045, 2, 1}}, Key: ib}
+	if variant != "no-algid-params" {
+		ob, _ := asn1.Marshal(curveOID)
+		out.Algo.Params = asn1.RawValue{FullBytes: ob}
+	}
+	b, _ := asn1.Marshal(out)
+	return b
+}
+
+func parseOID(s string) (asn1.ObjectIdentifier, error) {
+	var out asn1.ObjectIdentifier
+	for _, p := range strings.Split(s, ".") {
+		var n int
+		fmt.Sscanf(p, "%d", &n)
+		out = append(out, n)
+	}
+	return out, nil
+}
+
 func makeFixture(m *genMake, keys map[string]any) []byte {
 	var key any
 	if m.KeyId != "" {
@@ -549,8 +740,7 @@ func makeFixture(m *genMake, keys map[string]any) []byte {
 			panic(err)
 		}
 		pem.Encode(&bb, &pem.Block{Type: "CERTIFICATE", Bytes: der})
-		kb, _ := x509.MarshalPKCS8PrivateKey(key)
-		pem.Encode(&bb, &pem.Block{Type: "PRIVATE KEY", Bytes: kb})
+		pem.Encode(&bb, &pem.Block{Type: "PRIVATE KEY", Bytes: marshalPKCS8Variant(key, m.Variant)})
 	case "csr":
 		der, err := x509.CreateCertificateRequest(crand.Reader, &x509.CertificateRequest{Subject: pkix.Name{CommonName: m.CN}}, key)
 		if err != nil {
@@ -558,8 +748,7 @@ func makeFixture(m *genMake, keys map[string]any) []byte {
 		}
 		pem.Encode(&bb, &pem.Block{Type: "CERTIFICATE REQUEST", Bytes: der})
 	default: // "key"
-		kb, _ := x509.MarshalPKCS8PrivateKey(key)
-		pem.Encode(&bb, &pem.Block{Type: "PRIVATE KEY", Bytes: kb})
+		pem.Encode(&bb, &pem.Block{Type: "PRIVATE KEY", Bytes: marshalPKCS8Variant(key, m.Variant)})
 	}
 	return bb.Bytes()
 }
